@@ -27,7 +27,7 @@ def run(ctx, out):
     d0 = ctx.work.fresh("c14")
     out.rule = ("FIFOs, sockets, character devices (majors/minors incl. > 255 and > 20 bit) x modes x umask {0,022,077} x sole "
                 "source or inside a tree x fresh / existing destination entry (file, same kind, link to a file, link to a directory) x --no-clobber x both drivers x {none, --ownership, --fsync, --no-timestamps}; "
-                "block devices must fail; nodes copied to a path whose parent is missing, trees in which one mknod answers ENOENT / ENOTDIR / EEXIST / ENOSPC (exit 0 only with every node present); non-trivial = every case (a node is created or refused); distinct = case tuple")
+                "block devices must fail; nodes copied to a path whose parent is missing, trees in which one mknod answers ENOENT / ENOTDIR / EEXIST / ENOSPC (exit 0 only with every node present); nodes named .gitignore under --gitignore (never opened); non-trivial = every case (a node is created or refused); distinct = case tuple")
     cases = []
     for kind in KINDS:
         for umask in (0, 0o022, 0o077):
@@ -161,6 +161,42 @@ def run(ctx, out):
                     out.violation("exit 0 but only %d of 3 FIFOs exist at the destination (mknod #%d answered errno %d)" % (len(have), nth, errno),
                                   dict(argv=argv[1:], rules=rules, exit=r.exit, stderr=r.stderr[-200:]))
                 shutil.rmtree(d, ignore_errors=True)
+    # a special file whose NAME makes xcp look at it: a FIFO, socket or character device called `.gitignore` in the source root (and
+    # deeper) under --gitignore — it is an entry to be copied like any other node, never opened for reading, and the run ends
+    k3 = 0
+    for driver in ("parfile", "parblock"):
+        for kind in KINDS:
+            k3 += 1
+            d = os.path.join(d0, "gi%d" % k3)
+            os.makedirs(os.path.join(d, "src", "sub"))
+            mk(kind, os.path.join(d, "src", ".gitignore"), 0o640, (1, 3))
+            mk(kind, os.path.join(d, "src", "sub", ".gitignore"), 0o606, (1, 5))
+            open(os.path.join(d, "src", "secret.txt"), "wb").write(b"secret")
+            argv = [ctx.bins["xcp"], "-r", "-T", "--gitignore", "--driver", driver, "-w", "2", "src", "dst"]
+            r = xcp.run_supervised(sup, argv, d, d, tag="gi", umask=0o022, timeout_ms=15000)
+            out.case(("node-named-gitignore", driver, kind), True)
+            out.count("nodes_named_gitignore")
+            rep = dict(kind="%s named .gitignore under --gitignore" % kind, argv=argv[1:], exit=r.exit, stderr=r.stderr[-200:])
+            opened = [e for e in r.trace if e["sys"] in ("openat", "open") and e.get("ret") is not None
+                      and e["p1"].endswith("/.gitignore") and e["p1"].startswith(os.path.join(d, "src"))
+                      and not ((e["a"][2] if e["sys"] == "openat" else e["a"][1]) & 0o10000000)]          # (O_PATH is not an open for reading)
+            if r.meta.get("timeout") or r.exit == 124:
+                out.violation("xcp --gitignore did not end: a %s named .gitignore sits in the source" % kind, rep)
+            elif opened:
+                out.violation("a %s named .gitignore was opened for reading under --gitignore" % kind, rep)
+            elif r.exit == 0:
+                for rel, mode in ((".gitignore", 0o640 & ~0o022), ("sub/.gitignore", 0o606 & ~0o022)):
+                    try:
+                        st = os.lstat(os.path.join(d, "dst", rel))
+                        okk = stat.S_IMODE(st.st_mode) == mode and not stat.S_ISREG(st.st_mode)
+                    except OSError:
+                        okk = False
+                    if not okk:
+                        out.violation("exit 0 but dst/%s is not the %s with mode %o" % (rel, kind, mode), rep)
+                        break
+                if not os.path.isfile(os.path.join(d, "dst", "secret.txt")):
+                    out.violation("exit 0 but secret.txt was not copied: the content of a special file named .gitignore was used as patterns", rep)
+            shutil.rmtree(d, ignore_errors=True)
     # threads held at random and at every umask() call the program might make: the mode of a node depends on the source's
     # mode and the umask xcp was STARTED with, never on what another worker is doing at that moment
     for k in range(4 if quick else 40):
